@@ -5,6 +5,7 @@ model (`FragModel`), its domains (`DomRel`) and the bounds map (`BoxEnforced`).
 import Rooc.Proofs.LinFinal
 import Rooc.Proofs.LinSpecMin
 import Rooc.Proofs.LinOracle
+import Rooc.Proofs.LinSpecLogic2
 
 set_option linter.unusedSectionVars false
 set_option linter.unusedSimpArgs false
@@ -55,5 +56,59 @@ theorem bool_entry_ok {bd : Lin.Bounds (Ext K)} (hl : lowerOK bd.lower 0) (hu : 
   rcases B01_of_inDomain_bool hx with rfl | rfl
   · exact ⟨hl, hu0⟩
   · exact ⟨hl1, hu⟩
+
+/-- **the specification of `Exp::linearize` on EVERY expression**: literals, variables, `+ - * /`, unary minus,
+`abs`, `min`, `max`, and the logic connectives used as values (`not`, n-ary `and`/`or`, `implies`, `iff`, `xor`
+— reified, operands binary); the binary spellings `BinOp::And …` and `UnOp::Not` are rejected by the code
+(`UnimplementedExpression`), so nothing is claimed about them. -/
+theorem lin_spec_all {Src : Constraint (Ext K) → Prop} : ∀ e : Exp (Ext K), SpecHolds Src e := by
+  intro e
+  induction e using Exp.indL with
+  | num v => exact spec_num v
+  | var x => exact spec_var x
+  | abs e ih => exact spec_abs boundsOracle ih
+  | max es ih => exact spec_max boundsOracle ih
+  | min es ih => exact spec_min boundsOracle ih
+  | and es ih => exact spec_and ih
+  | or es ih => exact spec_or ih
+  | not e ih => exact spec_not ih
+  | xor a b iha ihb => exact spec_xor iha ihb
+  | implies a b iha ihb => exact spec_implies iha ihb
+  | iff a b iha ihb => exact spec_iff iha ihb
+  | bin op a b iha ihb =>
+    cases op with
+    | add => exact spec_add iha ihb
+    | sub => exact spec_sub iha ihb
+    | mul => exact spec_mul iha ihb
+    | div => exact spec_div iha
+    | and =>
+      intro req s c s' _ h
+      rw [linExp.eq_8 _ _ _ _ (by intro h; cases h) (by intro h; cases h) (by intro _ h; cases h)
+        (by intro _ h; cases h) (by intro h; cases h) (by intro _ h; cases h) (by intro h; cases h)] at h
+      simp [fail_ok] at h
+    | or =>
+      intro req s c s' _ h
+      rw [linExp.eq_8 _ _ _ _ (by intro h; cases h) (by intro h; cases h) (by intro _ h; cases h)
+        (by intro _ h; cases h) (by intro h; cases h) (by intro _ h; cases h) (by intro h; cases h)] at h
+      simp [fail_ok] at h
+    | xor =>
+      intro req s c s' _ h
+      rw [linExp.eq_8 _ _ _ _ (by intro h; cases h) (by intro h; cases h) (by intro _ h; cases h)
+        (by intro _ h; cases h) (by intro h; cases h) (by intro _ h; cases h) (by intro h; cases h)] at h
+      simp [fail_ok] at h
+    | implies =>
+      intro req s c s' _ h
+      rw [linExp.eq_8 _ _ _ _ (by intro h; cases h) (by intro h; cases h) (by intro _ h; cases h)
+        (by intro _ h; cases h) (by intro h; cases h) (by intro _ h; cases h) (by intro h; cases h)] at h
+      simp [fail_ok] at h
+    | iff =>
+      intro req s c s' _ h
+      rw [linExp.eq_8 _ _ _ _ (by intro h; cases h) (by intro h; cases h) (by intro _ h; cases h)
+        (by intro _ h; cases h) (by intro h; cases h) (by intro _ h; cases h) (by intro h; cases h)] at h
+      simp [fail_ok] at h
+  | un op e ih =>
+    cases op with
+    | neg => exact spec_neg ih
+    | not => intro req s c s' _ h; rw [linExp] at h; simp [fail_ok] at h
 
 end Rooc.LinP
